@@ -40,7 +40,7 @@ int vd_minify_main(int argc, char **argv)
                 if (!same) { if (valid) snprintf(why, sizeof(why), "JSON text is not minified to its comment- and whitespace-free form: got \"%.*s\"", (int)rl, (char*)buf); else drift = 1; }
             }
             if (!why[0] && valid) {   /* minifying twice equals minifying once */
-                unsigned char once[512]; memcpy(once, buf, rl + 1);
+                static unsigned char once[8192]; memcpy(once, buf, rl + 1);
                 if (VD_TRY()) { cJSON_Minify((char*)buf); VD_END(); if (strcmp((char*)once, (char*)buf)) snprintf(why, sizeof(why), "minifying twice differs from minifying once"); }
                 else snprintf(why, sizeof(why), "memory fault when minifying the result again");
             }
